@@ -54,7 +54,8 @@ type rcTwin struct {
 	routes []*rux.Route
 	// sib: a second router configured with the SAME option values and the same table (handlers tagged differently); it
 	// serves every request just before r does. Routers are independent of each other, whatever they were built from.
-	sib *rux.Router
+	sib    *rux.Router
+	strict bool
 }
 
 func rcBuild(c rcacheCase, cached bool) *rcTwin {
@@ -77,7 +78,7 @@ func rcBuild(c rcacheCase, cached bool) *rcTwin {
 	if strict || (len(c.H)+c.Cap)%2 == 1 {
 		opts = append(opts, rux.StrictLastSlash)
 	}
-	t := &rcTwin{r: newRouter(opts...)}
+	t := &rcTwin{r: newRouter(opts...), strict: strict || (len(c.H)+c.Cap)%2 == 1}
 	if cached {
 		t.sib = rux.New(opts...)
 	}
@@ -147,8 +148,19 @@ func rcacheReplay(s *Summary, raw json.RawMessage) {
 			rcServe(cached.sib, st.M, path)
 		}
 		evs = evs[:0]
-		c1, b1, a1, p1 := rcServe(cached.r, st.M, path)
-		c2, b2, a2, p2 := rcServe(plain.r, st.M, path)
+		// on a router that is not strict the request may be spelled with a trailing or a doubled leading slash: it is the same
+		// request (same resolution, same cache entry)
+		sent := path
+		if !cached.strict && !plain.strict && path != "/" {
+			switch i % 3 {
+			case 1:
+				sent = path + "/"
+			case 2:
+				sent = "/" + path
+			}
+		}
+		c1, b1, a1, p1 := rcServe(cached.r, st.M, sent)
+		c2, b2, a2, p2 := rcServe(plain.r, st.M, sent)
 		s.Compared++
 		if p1 != nil || p2 != nil {
 			bad("panic", fmt.Sprintf("ServeHTTP panicked: cached=%v plain=%v", p1, p2))
